@@ -146,11 +146,8 @@ impl St {
                                     }
                                 }
                                 Step::Dbg => {
-                                    let want = format!("{:?}", before[lo..hi].iter().map(|m| m.1).collect::<Vec<_>>());
-                                    let got = d.debug_string();
-                                    if got != want {
-                                        return Err(format!("Debug of the drain is {got}, expected {want}"));
-                                    }
+                                    let rem: Vec<u32> = before[lo..hi].iter().map(|m| m.0).collect();
+                                    debug_touches_only("the drain", &rem, || d.debug_string())?;
                                 }
                                 _ => {}
                             }
